@@ -787,7 +787,11 @@ def _check_test_function(repo, col, kind, tname):
     observation axis, samp* kinds shape[1] with the sample axis; dup kinds
     measure a set; mdsize kinds measure the metadata."""
     rule = 'AX-SHAPE'
-    f = repo.func(ERR, tname)
+    from .normalize import simplify_pure_function
+    try:
+        f = simplify_pure_function(repo.func(ERR, tname), repo.mod(ERR).tree)
+    except Exception:
+        f = repo.func(ERR, tname)
     if kind == 'empty':
         calls = [call_name(c) for c in body_walk(f)
                  if isinstance(c, ast.Call)]
